@@ -34,7 +34,8 @@ Deliver == /\ phase = "run" /\ avail < Len(inp)
 Done == out # <<>> /\ (out[Len(out)].res = "err" \/ (out[Len(out)].res = "none" /\ avail = Len(inp) /\ ~fresh))
 Call == /\ phase = "run" /\ ~Done
         /\ (IF out = <<>> THEN TRUE ELSE (out[Len(out)].res = "item" \/ fresh))     \* no busy polling of a paused source
-        /\ LET s == NextCall(S3, cfg, Take(inp, avail), r) IN r' = s.r /\ out' = Append(out, s.res)
+        /\ LET s == NextCall(S3, cfg, Take(inp, avail), r) IN
+             r' = s.r /\ out' = Append(out, IF s.res.res = "none" THEN [res |-> "none", pause |-> avail < Len(inp)] ELSE s.res)
         /\ fresh' = FALSE /\ UNCHANGED <<inp, avail, cfg, phase>>
 Next == Grow \/ Start \/ Deliver \/ Call
 Spec == Init /\ [][Next]_vars
